@@ -313,6 +313,8 @@ class ProgGen:
             kinds += ["sstore", "sstore", "sload_obs", "rmw"]
         if f.transient:
             kinds += ["tstore"]
+        if f.storage and f.mapping and f.hashing and bdepth > 0:
+            kinds += ["sibling_hash"]
         if f.logs:
             kinds += ["log"]
         if f.calls and self.depth_left > 0 and self.world.callee_addrs(self.depth_left):
@@ -348,6 +350,30 @@ class ProgGen:
             self.expr(d - 1, lbl + "v")
             self.slot_expr(lbl + "l")
             a.op("TSTORE")
+        elif k == "sibling_hash":
+            # a slot written and read through a literal that is a keccak image nobody computes on *this* path, while a sibling
+            # path (which ends right there) computes the same hash at run time: what one path learns about hashes must not
+            # change how another path decodes the literal.  (Dedicated base slot 9: no other statement hashes into it.)
+            from .keccak import keccak256
+
+            key = 0x10 + ch.pick(4, lbl + ".shk")
+            lit = int.from_bytes(keccak256(key.to_bytes(32, "big") + (9).to_bytes(32, "big")), "big")
+            self.expr(1, lbl + "v")
+            a.push(lit).op("SSTORE")
+            hash_side, load_side = a.fresh("shash"), a.fresh("sload")
+            self.cond(lbl + "c")
+            if ch.chance(0.7, lbl + ".shfall"):
+                a.jumpi(load_side)  # the hashing side is the fall-through side (explored first)
+            else:
+                a.op("ISZERO").jumpi(load_side)
+            a.push(key).push(0).op("MSTORE")
+            a.push(9).push(0x20).op("MSTORE")
+            a.push(0x40).push(0).op("SHA3")
+            a.push(0xE0).op("MSTORE")
+            self.terminator(lbl + "t")
+            a.label(load_side)
+            a.push(lit).op("SLOAD")
+            a.push(ch.choose([0xC0, 0xE0], lbl + ".mo")).op("MSTORE")
         elif k == "sload_obs":
             self.slot_expr(lbl + "l")
             a.op("SLOAD")
